@@ -4,10 +4,10 @@ import Mouette.Lemmas.C14Distinct
 # C14 (round 5) — no two faces with the same vertex set (no reversed / re-ordered copy of a face), all resolutions
 
 `FacesDistinct fs`: faces at different positions never have the same vertex SET (`facesDistinct_eq_true`: this is the executable
-`facesDistinct` flag). Proved for torus (quads, triangles), unit_grid (quads, triangles), cylinder (with and without caps), ring
-(closed, open), flat_ring — from the addressed forms of the translated loop nests: the vertex set determines the address
-(row/column decoding of the row-major ids, `omega` on the wrap-around cases). NOT done here: sphere_uv, unit_triangle (for them
-`*_noRepeatedFace` excludes duplicates and rotations, not reversed copies).
+`facesDistinct` flag). Proved for ALL seven parametric families: torus (quads, triangles), unit_grid (quads, triangles), cylinder
+(with and without caps), ring (closed, open), flat_ring, sphere_uv (pole fans and quad rows), unit_triangle (nu ≥ nv) — from the
+addressed forms of the translated loop nests: the vertex set determines the address (row/column decoding of the row-major ids,
+`omega` on the wrap-around cases; triangular numbering through `tv_inj`).
 -/
 namespace Mouette.Props.C14
 open Mouette.Generated.C14 Mouette.MeshCheck Mouette.EdgeCount
@@ -153,6 +153,113 @@ theorem cylinder_facesDistinct (N : Nat) (fc : Bool) (hN : 3 ≤ N) : FacesDisti
      have q3 := h.2 _ (List.mem_cons_of_mem _ (List.mem_cons_of_mem _ List.mem_cons_self))
      simp only [List.mem_cons, List.mem_nil_iff, or_false] at p1 p2 p3 q1 q2 q3
      first | (congr 1; omega) | (exfalso; omega))
+
+theorem unit_triangle_facesDistinct (nu nv : Nat) (u : Bool) (h : nv ≤ nu) : FacesDistinct (unit_triangleFaces nu nv u) := by
+  rw [unit_triangleFaces_addressed nu nv u h]
+  apply facesDistinct_addressed _ _ (nodup_triAddr nv)
+  intro a ha b hb hs
+  obtain ⟨j, i, d⟩ := a
+  obtain ⟨j', i', d'⟩ := b
+  simp only [mem_triAddr] at ha hb
+  have key : tv j i = tv j' i' ∧ (tv j i = tv j' i' → j = j' → d = d') := by
+    cases d <;> cases d' <;>
+      simp only [triFace, Bool.false_eq_true, if_false, if_true, tv_succ_row, tv_succ_col] at hs <;>
+      (have p1 := hs.1 _ List.mem_cons_self
+       have p2 := hs.1 _ (List.mem_cons_of_mem _ List.mem_cons_self)
+       have p3 := hs.1 _ (List.mem_cons_of_mem _ (List.mem_cons_of_mem _ List.mem_cons_self))
+       have q1 := hs.2 _ List.mem_cons_self
+       have q2 := hs.2 _ (List.mem_cons_of_mem _ List.mem_cons_self)
+       have q3 := hs.2 _ (List.mem_cons_of_mem _ (List.mem_cons_of_mem _ List.mem_cons_self))
+       simp only [List.mem_cons, List.mem_nil_iff, or_false] at p1 p2 p3 q1 q2 q3
+       have := ha.2.2; have := hb.2.2
+       refine ⟨by omega, fun hm hj => ?_⟩
+       first | rfl | (exfalso; subst hj; simp only [true_implies, Bool.false_eq_true, false_implies] at *; omega))
+  obtain ⟨rfl, rfl⟩ := tv_inj key.1 ha.2.1 hb.2.1
+  have := key.2 key.1 rfl
+  subst this; rfl
+
+theorem sphere_uv_facesDistinct (a b : Nat) (ha : 1 ≤ a) (hb : 3 ≤ b) : FacesDistinct (sphere_uvFaces a b) := by
+  rw [sphere_uvFaces_addressed a b ha]
+  apply facesDistinct_addressed _ _ (nodup_sphAddr a b)
+  intro f hf g hg hs
+  rw [mem_sphAddr] at hf hg
+  have hab : (a - 1) * b + b = a * b := by
+    obtain ⟨a', rfl⟩ : ∃ a', a = a' + 1 := ⟨a - 1, by omega⟩
+    rw [Nat.add_sub_cancel, Nat.succ_mul]
+  have eq : ∀ j i, i < b → (sphFace a b (.quad j i)).map (fun v => rc b (v - 1)) =
+      [(j, i), (j, (i + 1) % b), (j + 1, (i + 1) % b), (j + 1, i)] := by
+    intro j i hi
+    have hm : (i + 1) % b < b := Nat.mod_lt _ (by omega)
+    have h1 : j * b + 1 + i - 1 = j * b + i := by omega
+    have h2 : j * b + 1 + (i + 1) % b - 1 = j * b + (i + 1) % b := by omega
+    have h3 : (j + 1) * b + 1 + (i + 1) % b - 1 = (j + 1) * b + (i + 1) % b := by omega
+    have h4 : (j + 1) * b + 1 + i - 1 = (j + 1) * b + i := by omega
+    simp only [sphFace, List.map, h1, h2, h3, h4, rc_mk _ _ _ hi, rc_mk _ _ _ hm]
+  have bound : ∀ j, j + 1 < a → (j + 1) * b = j * b + b ∧ j * b + 2 * b ≤ a * b := by
+    intro j hj
+    have := Nat.mul_le_mul_right b (show j + 2 ≤ a by omega)
+    rw [Nat.add_mul] at this
+    exact ⟨Nat.succ_mul j b, this⟩
+  cases f with
+  | top i =>
+    have a1 := succ_mod_cases b i hf
+    cases g with
+    | top i' =>
+      have a2 := succ_mod_cases b i' hg
+      simp only [sphFace] at hs
+      have p1 := hs.1 _ List.mem_cons_self
+      have q1 := hs.2 _ List.mem_cons_self
+      simp only [List.mem_cons, List.mem_nil_iff, or_false] at p1 q1
+      congr 1; omega
+    | bot i' =>
+      exfalso
+      have p := hs.1 0 (by simp [sphFace])
+      simp only [sphFace, List.mem_cons, List.mem_nil_iff, or_false] at p; omega
+    | quad j' i' =>
+      exfalso
+      have p := hs.1 0 (by simp [sphFace])
+      simp only [sphFace, List.mem_cons, List.mem_nil_iff, or_false] at p; omega
+  | bot i =>
+    have a1 := succ_mod_cases b i hf
+    cases g with
+    | top i' =>
+      exfalso
+      have p := hs.2 0 (by simp [sphFace])
+      simp only [sphFace, List.mem_cons, List.mem_nil_iff, or_false] at p; omega
+    | bot i' =>
+      have a2 := succ_mod_cases b i' hg
+      simp only [sphFace] at hs
+      have p1 := hs.1 _ (List.mem_cons_of_mem _ List.mem_cons_self)
+      have q1 := hs.2 _ (List.mem_cons_of_mem _ List.mem_cons_self)
+      simp only [List.mem_cons, List.mem_nil_iff, or_false] at p1 q1
+      congr 1; omega
+    | quad j' i' =>
+      exfalso
+      have a2 := succ_mod_cases b i' hg.2
+      have bd := bound j' hg.1
+      have p := hs.1 (a * b + 1) (by simp [sphFace])
+      simp only [sphFace, List.mem_cons, List.mem_nil_iff, or_false] at p; omega
+  | quad j i =>
+    have a1 := succ_mod_cases b i hf.2
+    have bd := bound j hf.1
+    cases g with
+    | top i' =>
+      exfalso
+      have p := hs.2 0 (by simp [sphFace])
+      simp only [sphFace, List.mem_cons, List.mem_nil_iff, or_false] at p; omega
+    | bot i' =>
+      exfalso
+      have p := hs.2 (a * b + 1) (by simp [sphFace])
+      simp only [sphFace, List.mem_cons, List.mem_nil_iff, or_false] at p; omega
+    | quad j' i' =>
+      have a2 := succ_mod_cases b i' hg.2
+      have := hs.map_mem (fun v => rc b (v - 1))
+      rw [eq j i hf.2, eq j' i' hg.2] at this
+      have h1 := this.1 (j, i) (by simp)
+      have h2 := this.2 (j', i') (by simp)
+      simp only [List.mem_cons, Prod.mk.injEq, List.mem_nil_iff, or_false] at h1 h2
+      have : j = j' ∧ i = i' := by omega
+      rw [this.1, this.2]
 
 /-- the property is the `facesDistinct` flag the driver evaluates (and the harness recomputes on the implementation's output) -/
 theorem facesDistinct_flag (fs : List Face) (h : FacesDistinct fs) : facesDistinct fs = true := (facesDistinct_eq_true fs).mpr h
